@@ -444,3 +444,14 @@ def sym_genexp_raise(xs, ys):
     except KeyError:
         k = -1
     return (u, k)
+
+
+def sym_first_free_name(xs, ys):
+    from itertools import chain, count
+    taken = {'n%d' % x for x in xs} | ({'n'} if 0 in ys else set())
+    candidates = chain(['n'], ('n%d' % i for i in count()))
+    first = next(c for c in candidates if c not in taken)
+    g = (y for y in sorted(ys))
+    a = next(g, -1)
+    b = next(g, -2)
+    return (first, a, b)
